@@ -26,14 +26,14 @@ PROPS = {
         note="P prime by certificate; group axioms of the spec law are Lean-checked (lean/GroupLaw.lean) when ./check --setup has run, otherwise listed as assumed. secp256k1.inv is used through its contract (proved in the ints layer when built, else assumed).",
         design_ref="DESIGN.md section 8 C18"),
     "C07": dict(level="proof", trusted=_COMMON_TRUST, assumptions=[
-        "primality by certificate: Pocklington certificates (certs/primes.json, verified on every run by the closed fact primes.certificates) for secp256k1 P and N, alt_bn128 p and r, BLS12-381 r; the BLS12-381 field prime p (and the 448-bit factor of h2) only pass Miller-Rabin to 40 bases",
+        "primality by certificate: Pocklington certificates (certs/primes.json, verified on every run by the closed fact primes.certificates) for secp256k1 P and N, alt_bn128 p and r, BLS12-381 p and r (the 448-bit factor of h2, used only for the point count of the twist, passes Miller-Rabin to 40 bases without a certificate)",
         "field classes implement field arithmetic (proved separately: C08)"],
         text="add/double/neg/eq/is_on_curve/is_inf of the two reference modules (affine, None = infinity) and of the two optimized modules (projective) are proved on every path to compute the affine group law for every field of characteristic > 3 (so for base curve, twist and E(F_p^12) at once); multiply in all four modules is proved by induction to be the n-fold sum for every n >= 0; the abelian-group axioms of the spec law are the Lean lemma L-GROUP; generators, coefficients, moduli, orders are compared with pinned standard literals and their family derivations (eval).",
-        note="Primality of the standard moduli/orders by certificate (BLS12-381 p: probable prime) and the field classes are fields (C08). The twist clauses: image on E(F_p^12) for every twist point (units *.twist), optimized = reference (units twist.agree.*), embedding/injectivity by the closed fact twist.embedding + Lean scaling lemmas.",
+        note="Primality of the standard moduli/orders by certificate and the field classes are fields (C08). The twist clauses: image on E(F_p^12) for every twist point (units *.twist), optimized = reference (units twist.agree.*), embedding/injectivity by the closed fact twist.embedding + Lean scaling lemmas.",
         design_ref="DESIGN.md section 8 C07"),
     "C08": dict(level="proof", trusted=_COMMON_TRUST + [
         "ModInt reading: integers in the field classes are interpreted through the ring homomorphism Z -> Z/p with a tracked 'reduced' flag (DESIGN section 4 L1)"],
-        assumptions=["class invariant: field_modulus is prime (for user instantiations); for the real curves: primality by certificate: Pocklington certificates (certs/primes.json, verified on every run by the closed fact primes.certificates) for secp256k1 P and N, alt_bn128 p and r, BLS12-381 r; the BLS12-381 field prime p (and the 448-bit factor of h2) only pass Miller-Rabin to 40 bases",
+        assumptions=["class invariant: field_modulus is prime (for user instantiations); for the real curves: primality by certificate: Pocklington certificates (certs/primes.json, verified on every run by the closed fact primes.certificates) for secp256k1 P and N, alt_bn128 p and r, BLS12-381 p and r (the 448-bit factor of h2, used only for the point count of the twist, passes Miller-Rabin to 40 bases without a certificate)",
                      "class invariant: the modulus polynomial is irreducible and its integer coefficients are 0 or not multiples of p",
                      "FQP.inv: the quotient computed by (optimized_)poly_rounded_div enters only through its contract (length, degree, leading coefficient); the exit fact 'low != 0 unless self = 0' is the Lean lemma Euclid.lean:inv_exit_ne_zero applied to the proved invariants",
                      "FQ.__eq__/__lt__ with an int operand compare the canonical representative with the integer as given (recorded reading, DESIGN section 8 C08)"],
@@ -67,7 +67,7 @@ PROPS = {
         note="Termination of KeyGen is a statement about hash outputs and is assumed.",
         design_ref="DESIGN.md section 8 C16"),
     "C11": dict(level="proof", trusted=_COMMON_TRUST + ["contracts of optimized_curve.is_inf / normalize / is_on_curve (proved generically under C13) are used at their call sites"],
-        assumptions=["q (BLS12-381 field prime) prime: strong probable prime to 40 bases, no certificate found (p - 1 has a 317-bit cofactor of unknown factorisation)", "L-SQRT34 and sq_eq_sq_cases (Lean) for G1 round-trip completeness",
+        assumptions=["q (BLS12-381 field prime) prime: Pocklington certificate verified on every run (primes.certificates)", "L-SQRT34 and sq_eq_sq_cases (Lean) for G1 round-trip completeness",
                      "modular_squareroot_in_FQ2(Y^2) = +-Y is proved from the source (unit codec.sqrt_FQ2) from two lemma instances — (Y^2)^((q^2-1)/8) is a fourth root of unity (Lean Roots.lean check_is_fourth_root) and the exponent identity 2*((q^2+7)/16) = 1 + (q^2-1)/8 (closed fact) — and the table facts of codec.eighth-roots; F_q2 = F_q[u]/(u^2+1) being a field is the class invariant of C08",
                      "closed facts (eval): no point of E or E' has y = 0, no point of E' has x = 0"],
         text="For EVERY 384-bit word (pair of words) decompress_G1/G2 are proved to either raise ValueError or return a reduced on-curve point with z = 1 whose compression is exactly the input (soundness + canonicity, without trusting the square-root routines: their results are havocked and the code's own a-posteriori checks carry the proof), and to refuse exactly the malformed words; compress_G1/G2 are proved to produce the ZCash layout (flags in bits 383/382/381, sign = larger y, imaginary part first); round-trip completeness is proved from the square-root lemmas; the byte helpers give 48/96-byte big-endian strings.",
@@ -162,13 +162,57 @@ def load_all():
     return _cache
 
 
-def units_by_property():
+_SHARED_HELPERS = ("py_ecc.utils.", "py_ecc.bls.hash.i2osp", "py_ecc.bls.hash.os2ip")
+NO_CLOSURE = {"C20"}          # one whole-package unit already
+
+
+def units_by_property(closure=True):
+    """units tagged with the property, plus (closure) the units of every function reachable from their functions in the
+    static call graph of the tree being checked: a change inside a callee is only visible to the callee's own contract,
+    so that contract is part of every property that depends on the callee"""
+    import os
     out = {}
-    for m, units in load_all().items():
+    allu = load_all()
+    for m, units in allu.items():
         for n, u in units.items():
             for p in u.props:
                 out.setdefault(p, []).append((m, n))
+    if not closure or os.environ.get("VERIF_NO_CLOSURE") == "1":
+        return out
+    from .callgraph import graph
+    try:
+        g = graph(os.environ.get("PY_ECC_REPO", "/repo"))
+    except Exception:
+        return out
+    global _dependency_units
+    _dependency_units = {}
+    for p, lst in out.items():
+        if p in NO_CLOSURE:
+            continue
+        seeds = set()
+        for m, n in lst:
+            seeds.update(f.split("[")[0] for f in allu[m][n].functions)
+        reach = g.reachable(seeds)
+        have = set(lst)
+        extra = []
+        for m, units in allu.items():
+            for n, u in units.items():
+                if (m, n) in have or u.kind in ("closed", "bounded", "lemma") or not u.functions:
+                    continue
+                # shared helpers (py_ecc.utils.*) listed by a unit do not make it a dependency: its own functions do
+                own = [f for f in u.functions if not f.startswith(_SHARED_HELPERS)] or list(u.functions)
+                if any(f.split("[")[0] in reach for f in own):
+                    extra.append((m, n))
+        _dependency_units[p] = extra
+        lst.extend(extra)
     return out
+
+
+_dependency_units = {}
+
+
+def dependency_units(pid):
+    return list(_dependency_units.get(pid, []))
 
 
 def unit_cost(m, n):
